@@ -465,7 +465,8 @@ def object_data_size(data_type, data_values):
 
 def _to_np_array(data):
     if isinstance(data, np.ndarray):
-        return data
+        # Data is always written in little-endian byte order
+        return data.astype(data.dtype.newbyteorder('<'), copy=False)
 
     dtype = _infer_dtype(data)
     return np.array(data, dtype=dtype)
